@@ -2,12 +2,12 @@ SPECIFICATION MCFairSpec
 CONSTANTS
   NAuthor = 2
   NLog = 1
-  MaxSeq = 2
+  MaxSeq = 1
   Caps = {0, 1, 2, 3, 99}
   StoreChoices <- AllPrefixes
   LogsChoices <- LogsAll
-  MaxMut = 1
-  MutKinds = {"prune", "delete", "append"}
+  MaxMut = 0
+  MutKinds = {}
   Faults = TRUE
   Defect_SendBlocksRecv = FALSE
   Fix_DoneOnce = TRUE
